@@ -66,7 +66,9 @@ TRAMP = r'''
 #[verifier::external_body] pub fn bytes_partial_cmp(l: &CelBytes, r: &CelBytes) -> (o: Option<Ordering>) ensures o == Some(bytes_cmp(l@, r@)) { unimplemented!() }
 #[verifier::external_body] pub fn ts_partial_cmp(l: &DateTime<Utc>, r: &DateTime<Utc>) -> (o: Option<Ordering>) ensures o == Some(ts_cmp(*l, *r)) { unimplemented!() }
 #[verifier::external_body] pub fn dur_partial_cmp(l: &Duration, r: &Duration) -> (o: Option<Ordering>) ensures o == Some(dur_cmp(*l, *r)) { unimplemented!() }
-#[verifier::external_body] pub fn f64_partial_cmp(l: &f64, r: &f64) -> (o: Option<Ordering>) { l.partial_cmp(r) }
+/// the IEEE-754 comparison of two doubles (None when either is NaN): uninterpreted here
+pub uninterp spec fn f64_cmp(l: f64, r: f64) -> Option<Ordering>;
+#[verifier::external_body] pub fn f64_partial_cmp(l: &f64, r: &f64) -> (o: Option<Ordering>) ensures o == f64_cmp(*l, *r) { l.partial_cmp(r) }
 #[verifier::external_body] pub fn f64_eq(l: f64, r: f64) -> (o: bool) { l == r }
 #[verifier::external_body] pub fn f64_ne_zero(f: f64) -> (o: bool) ensures o == !f64_is_zero(f) { f != 0.0 }
 #[verifier::external_body] pub fn bytes_eq(l: &CelBytes, r: &CelBytes) -> (o: bool) ensures o == (l@ == r@) { unimplemented!() }
@@ -136,14 +138,15 @@ def build():
             ('integers_by_value', 'integral_pair(self, rhs_value) ==> r == Ok::<Option<Ordering>, CelError>(Some(int_cmp(int_val(self), int_val(rhs_value))))'),
             ('same_kind_by_payload_order', 'comparable_same_kind(self, rhs_value) ==> r == Ok::<Option<Ordering>, CelError>(Some(same_kind_cmp(self, rhs_value)))'),
             ('double_is_comparable', 'double_pair(self, rhs_value) ==> r is Ok'),
+            ('doubles_compare_as_ieee_lhs_to_rhs', 'self is Float && rhs_value is Float ==> r == Ok::<Option<Ordering>, CelError>(f64_cmp(self->Float_0, rhs_value->Float_0))'),
             ('unrelated_types_are_an_error', 'unrelated(self, rhs_value) ==> r is Err'),
         ], arm_rewrites={
-            '(CelValue::Float(l), CelValue::Float(r))': [('l.partial_cmp(&r)', 'f64_partial_cmp(&l, &r)', R2C)],
-            '(CelValue::Bool(l), CelValue::Bool(r))': [('l.partial_cmp(&r)', 'bool_partial_cmp(&l, &r)', R2C)],
-            '(CelValue::String(l), CelValue::String(r))': [('l.partial_cmp(&r)', 'string_partial_cmp(&l, &r)', R2C)],
-            '(CelValue::Bytes(l), CelValue::Bytes(r))': [('l.partial_cmp(&r)', 'bytes_partial_cmp(&l, &r)', R2C)],
-            '(CelValue::TimeStamp(l), CelValue::TimeStamp(r))': [('l.partial_cmp(&r)', 'ts_partial_cmp(&l, &r)', R2C)],
-            '(CelValue::Duration(l), CelValue::Duration(r))': [('l.partial_cmp(&r)', 'dur_partial_cmp(&l, &r)', R2C)],
+            '(CelValue::Float(l), CelValue::Float(r))': [('l.partial_cmp(&r)', 'f64_partial_cmp(&l, &r)', R2C, 'alt'), ('r.partial_cmp(&l)', 'f64_partial_cmp(&r, &l)', R2C, 'alt')],
+            '(CelValue::Bool(l), CelValue::Bool(r))': [('l.partial_cmp(&r)', 'bool_partial_cmp(&l, &r)', R2C, 'alt'), ('r.partial_cmp(&l)', 'bool_partial_cmp(&r, &l)', R2C, 'alt')],
+            '(CelValue::String(l), CelValue::String(r))': [('l.partial_cmp(&r)', 'string_partial_cmp(&l, &r)', R2C, 'alt'), ('r.partial_cmp(&l)', 'string_partial_cmp(&r, &l)', R2C, 'alt')],
+            '(CelValue::Bytes(l), CelValue::Bytes(r))': [('l.partial_cmp(&r)', 'bytes_partial_cmp(&l, &r)', R2C, 'alt'), ('r.partial_cmp(&l)', 'bytes_partial_cmp(&r, &l)', R2C, 'alt')],
+            '(CelValue::TimeStamp(l), CelValue::TimeStamp(r))': [('l.partial_cmp(&r)', 'ts_partial_cmp(&l, &r)', R2C, 'alt'), ('r.partial_cmp(&l)', 'ts_partial_cmp(&r, &l)', R2C, 'alt')],
+            '(CelValue::Duration(l), CelValue::Duration(r))': [('l.partial_cmp(&r)', 'dur_partial_cmp(&l, &r)', R2C, 'alt'), ('r.partial_cmp(&l)', 'dur_partial_cmp(&r, &l)', R2C, 'alt')],
         }, props=('C04', 'C01')),
         'lt': cmp_fn(('lt', ['Less'])),
         'gt': cmp_fn(('gt', ['Greater'])),
